@@ -257,6 +257,11 @@ class FnExecutor(Executor):
                 continue
             tv = self.truthy(r.val)
             stv = z3.simplify(tv)
+            # branches decided by a literal already assumed on this path (e.g. a precondition `not flag`)
+            if z3.Not(tv).get_id() in r.st.known or z3.Not(stv).get_id() in r.st.known:
+                stv = z3.BoolVal(False)
+            elif tv.get_id() in r.st.known or stv.get_id() in r.st.known:
+                stv = z3.BoolVal(True)
             if not z3.is_false(stv):
                 s1 = r.st.copy().assume(tv).note('L%s: if-true' % s.lineno)
                 outs.extend(self.block(s.body, s1))
@@ -282,6 +287,8 @@ class FnExecutor(Executor):
                         saved = hs.loc.get('$exc')
                         hs.loc['$exc'] = SV(TExc(o.exc), None)
                         for ho in self.block(h.body, hs):
+                            if h.name:
+                                ho.st.loc.pop(h.name, None)   # python unbinds the name at the end of the clause
                             if saved is None:
                                 ho.st.loc.pop('$exc', None)
                             else:
@@ -393,7 +400,7 @@ class FnExecutor(Executor):
         ghosts = set()
         allocs = False
         for c in self.callee_contracts(calls, st):
-            for m in c.modifies:
+            for m in list(c.modifies) + list(c.ghost_mods):
                 if m.startswith('$'):
                     ghosts.add(m[1:])
                 else:
@@ -435,9 +442,9 @@ class FnExecutor(Executor):
                 if n.func.id in CONTRACTS:
                     out.append(CONTRACTS[n.func.id])
             else:
-                # computed callee: every function-typed contract
+                # computed callee: every function-typed contract of the same property group
                 for q, c in CONTRACTS.items():
-                    if q.startswith('fun:'):
+                    if q.startswith('fun:') and (set(c.props) & set(self.c.props)):
                         out.append(c)
         return out
 
@@ -612,7 +619,7 @@ def verify_function(contract, fndef, prefix, ghost_decl=None, module_consts=None
             ex.oblige('post', o.st, post, node=o.node or fndef, extra_hyps=C2.side)
             # frame: heap arrays not listed in modifies must be unchanged
             allowed = set()
-            for m in contract.modifies:
+            for m in list(contract.modifies) + list(contract.ghost_mods):
                 if not m.startswith('$'):
                     cls, f = m.split('.')
                     r = find_field(cls, f)
@@ -625,7 +632,7 @@ def verify_function(contract, fndef, prefix, ghost_decl=None, module_consts=None
                     ex.oblige('frame.%s.%s' % key, o.st,
                               FA('ref', lambda r, arr=arr, a0=a0: z3.Implies(z3.Select(ex.entry.alloc, r), z3.Select(arr, r) == z3.Select(a0, r))))
             for gname, gv in o.st.ghost.items():
-                if ('$' + gname) not in contract.modifies and not gv.z.eq(ex.entry.ghost[gname].z):
+                if ('$' + gname) not in contract.modifies and ('$' + gname) not in contract.ghost_mods and not gv.z.eq(ex.entry.ghost[gname].z):
                     ex.oblige('frame.$%s' % gname, o.st, gv.z == ex.entry.ghost[gname].z)
         elif o.kind == 'raise':
             allowed = None
